@@ -4,7 +4,7 @@
 Confirms a seeded defect produced by an independent sub-agent and records it under /verif/seeded/<name>/:
   1. in a scratch worktree (outside /repo and /verif): patch applies, repository builds, the existing suite passes with it;
   2. the demonstration fails with the patch and passes without it;
-  3. applies the patch to /repo, runs the registered check, undoes it (git checkout -- .);
+  3. applies the patch to a second scratch worktree and runs the registered check against it (VERIF_REPO, VERIF_OUT);
   4. writes meta.json (property, what it needs, what was run, whether the check caught it).
 """
 import json
@@ -78,16 +78,30 @@ def main():
     finally:
         sh(f"git -C /repo worktree remove --force {wt}")
         sh("git -C /repo worktree prune")
-    # run the registered check against it
-    rc, out = sh("git diff --quiet", cwd="/repo")
+    # run the registered check against it: a second scratch worktree carrying the patch (VERIF_REPO) and a scratch output
+    # directory (VERIF_OUT), so that neither /repo nor /verif/evidence ever sees the broken tree
+    wt2 = "/tmp/sc-" + name
+    outd = "/tmp/sco-" + name
+    sh(f"git -C /repo worktree remove --force {wt2}")
+    sh(f"rm -rf {outd}")
+    rc, out = sh(f"git -C /repo worktree add -q --detach {wt2} HEAD")
     if rc != 0:
-        print("/repo is dirty")
+        print(out)
         return 2
-    sh(f"git apply {patch}", cwd="/repo")
     try:
-        rc, out = sh(f"/verif/run.sh {cid} {tier}", cwd="/verif", timeout=3600)
+        rc, out = sh(f"git apply {patch}", cwd=wt2)
+        if rc != 0:
+            print("patch does not apply:", out)
+            return 2
+        ENV["VERIF_REPO"] = wt2
+        ENV["VERIF_OUT"] = outd
+        rc, out = sh(f"/verif/run.sh {cid} {tier}", cwd="/verif", timeout=7200)
+        # keep the first replay file next to the record
+        open("/tmp/sc-last-" + name + ".log", "w").write(out)
     finally:
-        sh("git checkout -- .", cwd="/repo")
+        sh(f"git -C /repo worktree remove --force {wt2}")
+        sh("git -C /repo worktree prune")
+        sh(f"rm -rf {outd}")
     caught = rc == 1 and "VIOLATION property=" in out
     result["check"] = f"./run.sh {cid} {tier}"
     result["check_rc"] = rc
@@ -116,7 +130,7 @@ def main():
         "ran": [
             "scratch worktree: git apply patch.diff && go build ./... && go test -vet=off -count=1 ./...  -> suite passes",
             f"scratch worktree: go test -run '{runre}' ./{pkgdir}/ with the demo -> fails with the patch, passes without",
-            f"/repo: git apply patch.diff && ./run.sh {cid} {tier} && git checkout -- .  -> rc={rc}",
+            f"scratch worktree with patch.diff applied: VERIF_REPO=<worktree> VERIF_OUT=<scratch> ./run.sh {cid} {tier}  -> rc={rc}",
         ],
         "confirmed": result,
         "caught_by_check": caught,
